@@ -177,7 +177,7 @@ class P:
             init = None
             if self.peek() != ";":
                 init = self.stmt()                 # declaration or expression statement, eats the ';'
-                if init[0] not in ("decl", "expr"):
+                if init[0] not in ("decl", "expr", "multidecl"):
                     raise Refuse(f"{self.fn}: for-init of kind {init[0]}")
             else:
                 self.eat(";")
@@ -250,6 +250,18 @@ class P:
                 raise Refuse(f"{self.fn}: declarator of `{name}`")
             self.eat("=")
             e = self.expr()
+            if self.peek() == "," and ty == "Item*":
+                # `Item* a = x, * b = y;`
+                decls = [("decl", ty, name, e)]
+                while self.peek() == ",":
+                    self.eat(","); self.eat("*")
+                    n2 = self.eat()
+                    if not re.fullmatch(r"[A-Za-z_]\w*", n2):
+                        raise Refuse(f"{self.fn}: declarator {n2!r}")
+                    self.eat("=")
+                    decls.append(("decl", ty, n2, self.expr()))
+                self.eat(";")
+                return ("multidecl", decls)
             self.eat(";")
             return ("decl", ty, name, e)
         e = self.expr()
@@ -364,6 +376,12 @@ class P:
             if op != "->":
                 raise Refuse(f"{self.fn}: operator `{op}` is outside the translated subset")
             f = self.eat()
+            if f == "~":
+                if self.eat() != "Item":
+                    raise Refuse(f"{self.fn}: destructor call of something that is not an Item")
+                self.eat("("); self.eat(")")
+                a = ("dtor", a)
+                continue
             if self.peek() == "(":
                 self.eat("("); self.eat(")")
                 a = ("mcall", a, f)
@@ -908,6 +926,14 @@ class Tr2(Tr):
                 return f"{pre}{ind}if ({val} ≠ 0) then\n{a}{ind}else\n{b}"
             return self.ifthen(c, env, ind, lambda i: self.stmts2([s[2]] + rest, env, i, lp),
                                lambda i: self.stmts2([s[3]] + rest, env, i, lp))
+        if k == "multidecl":
+            return self.stmts2(list(s[1]) + rest, env, ind, lp)
+        if k == "expr" and self.strip(s[1])[0] == "dtor":
+            # `p->~Item();` destroys key and value: no effect on the heap model (the links and stored fields stay)
+            t, ty = self.rv(self.strip(s[1])[1], env, "ptr")
+            if ty != "ptr":
+                raise Refuse(f"{self.fn}: destructor call on {ty}")
+            return self.stmts2(rest, env, ind, lp)
         if k == "construct":
             # `new(p) Item(parent, key, value);` : the stores of the constructor's initialiser list (read from struct Item)
             if self.ctor is None:
@@ -1068,7 +1094,18 @@ class Tr2(Tr):
         env2 = dict(env)
         if s[0] == "for":
             _, init, cond, step, body = s
-            if init is not None:
+            if init is not None and init[0] == "multidecl":
+                for d in init[1]:
+                    _, ty, nm, ini = d
+                    if nm in env2 or ty not in FIELD_TYPES or ty in ("T", "V"):
+                        raise Refuse(f"{self.fn}: for-init `{ty} {nm}`")
+                    lt = FIELD_TYPES[ty]
+                    t, tt = self.rv(ini, env2, lt)
+                    if tt != lt:
+                        raise Refuse(f"{self.fn}: for-init `{nm}` of type {ty} initialised with {tt}")
+                    pre += f"{ind}let {lean_name(nm)} : {LEAN_TY[lt]} := {t}\n"
+                    env2[nm] = lt
+            elif init is not None:
                 if init[0] == "decl":
                     _, ty, nm, ini = init
                     if nm in env or ty not in FIELD_TYPES or ty in ("T", "V"):
@@ -1377,6 +1414,19 @@ def translate_header(path):
         raise Refuse("insertPlainHead: trailing tokens")
     asts["insertPlainHead"] = (items, [("key", mp.group(1)), ("val", mp.group(2))], "desc")
     order2.append("insertPlainHead")
+    # clear()
+    mc = re.search(r"void\s+clear\s*\(\s*\)\s*\{", src)
+    if not mc:
+        raise Refuse("clear() not found")
+    cbody = src[mc.end():balanced(src, mc.end() - 1) - 1]
+    toks = tokenize(cbody)
+    norm["clear"] = toks
+    p = P(toks, "clear")
+    items = p.block_items()
+    if p.peek() is not None:
+        raise Refuse("clear: trailing tokens")
+    asts["clear"] = (items, [], "void")
+    order2.append("clear")
     # the hinted insert: the neighbour tests in front of the private insert
     mh = re.search(r"Iterator\s+insert\s*\(\s*const\s+Iterator\s*&\s*(\w+)\s*,\s*const\s+T\s*&\s*(\w+)\s*,"
                    r"\s*const\s+V\s*&\s*(\w+)\s*\)\s*\{", src)
